@@ -1,0 +1,71 @@
+//go:build verif
+
+// Contracts for package ddsketch, checked by /verif (govc). Comment-only: this file adds no code.
+// float64 is an extended real here (finite real, +Inf, -Inf, NaN; arithmetic on finite values exact: A-REAL).
+
+package ddsketch
+
+//@ mode ints=wrap floats=ext
+
+// ---------------------------------------------------------------- abstract state of a sketch
+// mapping (immutable), zero weight, positive-side content, negative-side content
+//@ pred KInv(s *DDSketch) := s != nil && mapping.MapOK(s.IndexMapping) && store.SInv(s.positiveValueStore) && store.SInv(s.negativeValueStore) && disjoint(s.positiveValueStore, s.negativeValueStore) && finite(s.zeroCount) && s.zeroCount >= 0.0
+//@ fun KZero(s *DDSketch) real := real(s.zeroCount)
+//@ fun KPosTot(s *DDSketch) real := store.STot(s.positiveValueStore)
+//@ fun KNegTot(s *DDSketch) real := store.STot(s.negativeValueStore)
+//@ fun KCount(s *DDSketch) real := KZero(s) + KPosTot(s) + KNegTot(s)
+//@ vfun KPos(s *DDSketch, k int) real := store.SView(s.positiveValueStore, k)
+//@ vfun KNeg(s *DDSketch, k int) real := store.SView(s.negativeValueStore, k)
+// every observable aspect as it was before the call
+//@ pred KSame(s *DDSketch) := s.IndexMapping == old(s.IndexMapping) && s.positiveValueStore == old(s.positiveValueStore) && s.negativeValueStore == old(s.negativeValueStore) && same(s.zeroCount, old(s.zeroCount)) && KPosTot(s) == old(KPosTot(s)) && KNegTot(s) == old(KNegTot(s)) && (forall k int :: KPos(s, k) == old(KPos(s, k))) && (forall k int :: KNeg(s, k) == old(KNeg(s, k)))
+
+//@ footprint DDSketch(s) := s, footprint(s.positiveValueStore), footprint(s.negativeValueStore)
+
+//@ func NewDDSketch
+//@   serves C01 C15
+//@   ensures result != nil && fresh(result) && result.IndexMapping == indexMapping && result.positiveValueStore == positiveValueStore && result.negativeValueStore == negativeValueStore && same(result.zeroCount, xf(0.0))
+
+//@ func DDSketch.GetCount
+//@   serves C12 C01
+//@   requires KInv(s)
+//@   ensures same(result, xf(KCount(s)))
+
+//@ func DDSketch.GetZeroCount
+//@   serves C12
+//@   ensures same(result, s.zeroCount)
+
+//@ func DDSketch.IsEmpty
+//@   serves C12
+//@   requires KInv(s)
+//@   ensures result == (KCount(s) == 0.0)
+//@   hint store.SViewNonneg(s.positiveValueStore), store.STotIsTot(s.positiveValueStore), TotNonneg(store.SViewArr(s.positiveValueStore)), store.SViewNonneg(s.negativeValueStore), store.STotIsTot(s.negativeValueStore), TotNonneg(store.SViewArr(s.negativeValueStore))
+
+// Adding: invalid input is refused with the documented error and changes nothing; a trackable value goes to the
+// bin of its index on its side (or to the zero bucket when closer to zero than the smallest indexable value).
+//@ func DDSketch.AddWithCount
+//@   serves C13 C01 C11
+//@   requires KInv(s) && finite(count)
+//@   ensures untouched-neg: !(result == nil && value < xf(0.0 - mapping.MMin(s.IndexMapping))) ==> untouched(s.negativeValueStore)
+//@   ensures untouched-pos: !(result == nil && value > xf(mapping.MMin(s.IndexMapping))) ==> untouched(s.positiveValueStore)
+//@   ensures KInv(s)
+//@   ensures neg-count: count < 0.0 ==> result == ErrNegativeCount && KSame(s)
+//@   ensures nan: count >= 0.0 && isnan(value) ==> result == ErrUntrackableNaN && KSame(s)
+//@   ensures too-high: count >= 0.0 && value > xf(mapping.MMax(s.IndexMapping)) ==> result == ErrUntrackableTooHigh && KSame(s)
+//@   ensures too-low: count >= 0.0 && value < xf(0.0 - mapping.MMax(s.IndexMapping)) ==> result == ErrUntrackableTooLow && KSame(s)
+//@   ensures accepted: count >= 0.0 && !isnan(value) && value <= xf(mapping.MMax(s.IndexMapping)) && value >= xf(0.0 - mapping.MMax(s.IndexMapping)) ==> result == nil
+//@   ensures total: result == nil ==> KCount(s) == old(KCount(s)) + real(count)
+//@   ensures positive: result == nil && value > xf(mapping.MMin(s.IndexMapping)) ==> same(s.zeroCount, old(s.zeroCount)) && KPosTot(s) == old(KPosTot(s)) + real(count) && KNegTot(s) == old(KNegTot(s)) && (forall k int :: KNeg(s, k) == old(KNeg(s, k))) && (store.SExact(s.positiveValueStore) ==> (forall k int :: KPos(s, k) == old(KPos(s, k)) + (k == mapping.MIdx(s.IndexMapping, real(value)) ? real(count) : 0.0)))
+//@   ensures negative: result == nil && value < xf(0.0 - mapping.MMin(s.IndexMapping)) ==> same(s.zeroCount, old(s.zeroCount)) && KNegTot(s) == old(KNegTot(s)) + real(count) && KPosTot(s) == old(KPosTot(s)) && (forall k int :: KPos(s, k) == old(KPos(s, k))) && (store.SExact(s.negativeValueStore) ==> (forall k int :: KNeg(s, k) == old(KNeg(s, k)) + (k == mapping.MIdx(s.IndexMapping, 0.0 - real(value)) ? real(count) : 0.0)))
+//@   ensures zero: result == nil && value <= xf(mapping.MMin(s.IndexMapping)) && value >= xf(0.0 - mapping.MMin(s.IndexMapping)) ==> same(s.zeroCount, old(s.zeroCount) + count) && KPosTot(s) == old(KPosTot(s)) && KNegTot(s) == old(KNegTot(s)) && (forall k int :: KPos(s, k) == old(KPos(s, k))) && (forall k int :: KNeg(s, k) == old(KNeg(s, k)))
+//@   ensures s.IndexMapping == old(s.IndexMapping) && s.positiveValueStore == old(s.positiveValueStore) && s.negativeValueStore == old(s.negativeValueStore)
+//@   ensures stable: footprintStable(s)
+//@   modifies footprint(s)
+
+//@ func DDSketch.Add
+//@   serves C13 C01
+//@   requires KInv(s)
+//@   ensures KInv(s)
+//@   ensures rejected: (isnan(value) || value > xf(mapping.MMax(s.IndexMapping)) || value < xf(0.0 - mapping.MMax(s.IndexMapping))) ==> result != nil && KSame(s)
+//@   ensures accepted: !(isnan(value) || value > xf(mapping.MMax(s.IndexMapping)) || value < xf(0.0 - mapping.MMax(s.IndexMapping))) ==> result == nil && KCount(s) == old(KCount(s)) + 1.0
+//@   ensures stable: footprintStable(s)
+//@   modifies footprint(s)
